@@ -66,6 +66,9 @@ PUSHES_WF = ("forall(lambda p, k: implies(p is not None and p.dfa_pushes is not 
 # the lists inside the generated tables are not the parser's working lists
 DISJOINT = ("forall(lambda p, j: implies(p is not None, p.dfa_pushes is not self.stack and "
             "implies(0 <= j and j < len(self.stack), p.dfa_pushes is not self.stack[j].nodes)), kinds=dict(p='ref:DFAPlan', j='int'))")
+class_fields('ParserSyntaxError', message='str', error_leaf='ref:ErrorLeaf')
+LEAF_IS_TOKEN = ['exc.error_leaf is not None', 'exc.error_leaf.value == token.string', 'exc.error_leaf.prefix == token.prefix',
+                 'exc.error_leaf.line == token.start_pos[0]', 'exc.error_leaf.column == token.start_pos[1]']
 ROOT_OPEN = 'not self.stack[0].dfa.is_final'      # the start rule is complete only after ENDMARKER, which is the last token
 
 contract('parso.parser.StackNode.__init__', params={'self': 'ref:StackNode', 'dfa': 'ref:DFAState'},
@@ -87,9 +90,10 @@ contract('parso.parser.BaseParser.convert_leaf',
          params={'self': 'ref:BaseParser', 'type_': 'ref', 'value': 'str', 'prefix': 'str', 'start_pos': 'pos'},
          returns='ref:Leaf', trusted=True, ensures=LEAF_OF_TOKEN, lists=[],
          note='dynamic dispatch: the override Parser.convert_leaf is verified against the same postcondition')
-contract('parso.parser.BaseParser.error_recovery', params={'self': 'ref:BaseParser', 'token': 'ref:PythonToken'},
+contract('parso.parser.BaseParser.error_recovery#dispatch', params={'self': 'ref:BaseParser', 'token': 'ref:PythonToken'},
          trusted=True, requires=[], ensures=['self.stack is not None', 'len(self.stack) >= 1', STACK_WF],
          raises=['ParserSyntaxError', 'NotImplementedError', 'InternalParseError'], modifies=['dfa', 'parent', 'stack'], lists=None,
+         raises_ensures={'ParserSyntaxError': LEAF_IS_TOKEN},
          note='assumed (dynamic dispatch to Parser.error_recovery): re-establishes the stack shape; not verified')
 
 # _add_token: no IndexError / AttributeError / KeyError escapes; the stack keeps its shape; InternalParseError only
@@ -101,10 +105,51 @@ contract('parso.parser.BaseParser._add_token', params={'self': 'ref:BaseParser',
                    TABLES_WF, PUSHES_WF, DISJOINT, ROOT_OPEN],
          ensures=['self.stack is not None', 'len(self.stack) >= 1', STACK_WF],
          raises=['ParserSyntaxError', 'NotImplementedError', 'InternalParseError'],
+         raises_ensures={'ParserSyntaxError': LEAF_IS_TOKEN},
          loops={0: dict(invariant=['stack is self.stack', 'stack is not None', STACK_WF, TABLES_WF, PUSHES_WF, DISJOINT,
                                    'len(stack) == 0 or ' + ROOT_OPEN],
                         decreases='len(self.stack) + 1'),
                 1: dict(invariant=['stack is self.stack', 'stack is not None', 'len(stack) >= 1', STACK_WF, PUSHES_WF,
                                    'plan is not None and plan.dfa_pushes is not None and stack is not plan.dfa_pushes'],
                         len_stable=True, lists_modified=['stack'])},
+         # self.error_recovery(token) is dispatched dynamically: the assumed contract of any overrider
+         call_keys={'parso.parser.BaseParser.error_recovery': 'parso.parser.BaseParser.error_recovery#dispatch'},
          props=['C02', 'C01'])
+
+# ---- C07: what strict mode raises.  BaseParser.error_recovery never returns; with error recovery switched off it
+# raises ParserSyntaxError whose error leaf is exactly the offending token (same text, prefix and position).
+contract('parso.parser.ParserSyntaxError.__init__',
+         params={'self': 'ref:ParserSyntaxError', 'message': 'str', 'error_leaf': 'ref:ErrorLeaf'},
+         ensures=['self.message == message', 'self.error_leaf is error_leaf'],
+         modifies=['self.message', 'self.error_leaf'], props=['C07'])
+contract('parso.parser.BaseParser.error_recovery', params={'self': 'ref:BaseParser', 'token': 'ref:PythonToken'},
+         requires=['token is not None'],
+         ensures=['False'],
+         raises=['ParserSyntaxError', 'NotImplementedError'],
+         exc_ensures={'ParserSyntaxError': 'not self._error_recovery', 'NotImplementedError': 'self._error_recovery'},
+         raises_ensures={'ParserSyntaxError': [
+             'exc.error_leaf is not None', 'exc.error_leaf.value == token.string', 'exc.error_leaf.prefix == token.prefix',
+             'exc.error_leaf.line == token.start_pos[0]', 'exc.error_leaf.column == token.start_pos[1]',
+             'exc.error_leaf.parent is None']},
+         modifies=[], props=['C07'])
+
+# The error leaf of a strict-mode syntax error is the token that had no transition (C07).  Assumed of the dynamic
+# dispatch target, proved of both implementations and carried through _add_token.
+TOP = 'self.stack[len(self.stack) - 1]'
+contract('parso.python.parser.Parser.error_recovery#strict', params={'self': 'ref:Parser', 'token': 'ref:PythonToken'},
+         requires=['not self._error_recovery', 'token is not None', 'token.type is not None', 'token.type.value is not None',
+                   'self._pgen_grammar is not None', 'self.stack is not None', 'len(self.stack) >= 1', STACK_WF,
+                   TABLES_WF, PUSHES_WF, DISJOINT, ROOT_OPEN,
+                   'forall(lambda k: implies(0 <= k and k < len(%s.nodes), %s.nodes[k] is not None))' % (TOP, TOP),
+                   # assumed of the caller (engine + tokenizer): a DEDENT never arrives while the top entry is empty,
+                   # and the root entry belongs to the start rule
+                   'len(%s.nodes) >= 1 or token.type is not DEDENT' % TOP,
+                   'self.stack[0].dfa.from_rule == self._start_nonterminal'],
+         ensures=['self.stack is not None', 'len(self.stack) >= 1', STACK_WF,
+                  # strict mode returns normally only through the missing-final-newline exemption shared with
+                  # recovery mode
+                  'self._start_nonterminal == "file_input"', 'old(%s.dfa.from_rule) == "simple_stmt"' % TOP],
+         raises=['ParserSyntaxError', 'NotImplementedError', 'InternalParseError'],
+         raises_ensures={'ParserSyntaxError': LEAF_IS_TOKEN},
+         modifies=['dfa', 'parent', 'stack'], theories=['tree'], globals_={'DEDENT': 'ref:PythonTokenTypes'},
+         props=['C07'])
